@@ -109,6 +109,15 @@ MUTANTS = {
     "string_ann_builtins_only": ("types.py", '            t = eval(t, getattr(fn, "__globals__", {}))', '            t = eval(t, {})', ["C15"]),
     "pipe_union_first_member": ("types.py", "            return self(t.__args__, fn)\n        elif origin is type:", "            return self(t.__args__[:1], fn)\n        elif origin is type:", ["C15"]),
     "literal_bound_first": ("dependent.py", "        if len(types) == 1:\n            return types[0]", "        if True:\n            return types[0]", ["C15", "C11"]),
+    # ---- C03
+    "missing_branch_slice_off_by_one": ("recode.py", "                posargs=join(posargs[: req + i + 1] + posargs[npos + 1 :]),", "                posargs=join(posargs[: req + i + 2] + posargs[npos + 1 :]),", ["C03"]),
+    "missing_branch_drops_kw": ("recode.py", "                lookup=join(lookup[: req + i] + lookup[npos:], trail=True),\n                posargs=join(posargs[: req + i + 1] + posargs[npos + 1 :]),",
+                                "                lookup=join(lookup[: req + i], trail=True),\n                posargs=join(posargs[: req + i + 1]),", ["C03", "C02"]),
+    "kwargs_wrong_name": ("recode.py", '        body.append(f"    KWARGS[{name!r}] = {name}")', '        body.append(f"    KWARGS[{ko[0]!r}] = {name}")', ["C03"]),
+    "required_kw_swapped": ("recode.py", '        posargs.append(f"{name}={name}")', '        posargs.append(f"{name}={kr[0]}")', ["C03"]),
+    "empty_key_first_handler": ("typemap.py", "                if sig.req_pos == 0 and not sig.req_names\n            }", "                if sig.req_pos == 0\n            }", ["C03", "C01"]),
+    "rename_drops_kwdefaults": ("recode.py", "    new_fn.__kwdefaults__ = fn.__kwdefaults__\n    new_fn.__annotations__ = fn.__annotations__\n    return new_fn\n\n\nclass NameConverter", "    new_fn.__annotations__ = fn.__annotations__\n    return new_fn\n\n\nclass NameConverter", ["C03"]),
+    "rename_shares_defaults": ("recode.py", "        newcode, fn.__globals__, newname, fn.__defaults__, fn.__closure__\n    )\n    new_fn.__kwdefaults__", "        newcode, fn.__globals__, newname, None, fn.__closure__\n    )\n    new_fn.__kwdefaults__", ["C03"]),
     # ---- C17
     "ext_first_base_only": ("core.py", "                for other in others:\n                    prev.add_mixins(other)\n", "", ["C17"]),
     "ext_no_copy": ("core.py", "                prev = prev.copy()\n                for other in others:", "                for other in others:", ["C17"]),
